@@ -177,6 +177,8 @@ def inject(cat, dst, scratch, modules, extra_tests=None):
                     attrs += "#[kani::solver(%s)]\n" % u["solver"]
                 for st in u.get("stubs", []):
                     attrs += "#[kani::stub(%s, %s)]\n" % (st[0], st[1])
+                for sv in u.get("stub_verified", []):
+                    attrs += "#[kani::stub_verified(%s)]\n" % sv
                 gen_h.append("%sfn %s() {\n    %s;\n}\n" % (attrs, u["harness"], u["call"]))
         if gen_h:
             text += "\n// ---- harnesses instantiated from contracts/catalogue.py ----\n" + "\n".join(gen_h)
@@ -573,6 +575,8 @@ def check(prop, tier, only=None, keep=False):
             assumptions += scan_assumptions(files)
             for st in sorted({tuple(x) for u in kani_units for x in u.get("stubs", [])}):
                 assumptions.append("kani::stub declared in the catalogue: %s replaced by %s" % st)
+            for sv in sorted({x for u in kani_units for x in u.get("stub_verified", [])}):
+                assumptions.append("kani::stub_verified declared in the catalogue: calls to %s are replaced by its function contract (precondition asserted at the call site, postcondition assumed); the contract itself is discharged by its proof_for_contract obligation" % sv)
         if kani_units:
             pkgs = sorted({cat.MODULES[u["module"]]["pkg"] for u in kani_units})
             jobs = int(os.environ.get("VERIF_JOBS", "0") or 0) or min(12, max(1, len(kani_units)))
